@@ -248,7 +248,8 @@ fn gather_seqmaps(sections: Vec<SeqmapRawSection<'_>>) -> GatheredSeqmaps {
         }
     }
     for key in maps.keys().cloned().collect::<Vec<_>>() {
-        if key.starts_with(ENUM_SECT_START) && key.ends_with(ENUM_SECT_END) {
+        let is_long_enough = key.len() >= ENUM_SECT_START.len() + ENUM_SECT_END.len();  // (`enum(name=")` is not)
+        if is_long_enough && key.starts_with(ENUM_SECT_START) && key.ends_with(ENUM_SECT_END) {
             let map = maps.remove(&key).unwrap();
             let enum_name = sp!(key.span => key[ENUM_SECT_START.len()..key.len()-ENUM_SECT_END.len()].to_string());
             enum_maps.insert(enum_name, map);
